@@ -570,9 +570,11 @@ class Dispatch(Unit):
 
     def setup(self, ctx, case):
         DR = "PyMatterSim.reader.dump_reader"
-        o = ctx.obj(DR, "DumpReader", dict(filename="f.dump", ndim=3, filetype=ctx.enum("PyMatterSim.reader.reader_utils", "DumpFileType", "LAMMPS"),
+        nd = ctx.int("ndim")            # symbolic dimensionality: the dispatcher must hand it on unchanged, whatever it is
+        ctx.assume(sv.or_(sv.cmp("==", nd, 2), sv.cmp("==", nd, 3)))
+        o = ctx.obj(DR, "DumpReader", dict(filename="f.dump", ndim=nd, filetype=ctx.enum("PyMatterSim.reader.reader_utils", "DumpFileType", "LAMMPS"),
                                             moltypes=None, columnsids=None, snapshots=None))
-        return [o], {}, {"o": o}
+        return [o], {}, {"o": o, "nd": nd}
 
     summaries = {f"{MOD}.read_lammps_wrapper": (lambda interp, args, kwargs: ("WRAPPER-CALLED", tuple(args), tuple(sorted(kwargs.items()))))}
 
@@ -583,11 +585,13 @@ class Dispatch(Unit):
         snaps = inp["o"].content.get("snapshots")
         good = isinstance(snaps, tuple) and snaps and snaps[0] == "WRAPPER-CALLED"
         if good:
+            # the summary receives the call normalised against read_lammps_wrapper's real signature (file_name, ndim):
+            # both parameters in positional order; what the call site passed by keyword is repeated by name in kw
             args, kw = list(snaps[1]), dict(snaps[2])
-            fn = kw.get("file_name", args[0] if args else None)
-            nd = kw.get("ndim", args[1] if len(args) > 1 else None)
-            good = fn == "f.dump" and nd == 3 and len(args) + len(kw) == 2
-        yield "lammps-type-is-read-by-read_lammps_wrapper(filename,ndim)", bool(good)
+            good = len(args) == 2 and args[0] == "f.dump" and set(kw) <= {"file_name", "ndim"} and kw.get("file_name", "f.dump") == "f.dump"
+            if good:
+                good = sv.and_(sv.cmp("==", args[1], inp["nd"]), sv.cmp("==", kw.get("ndim", inp["nd"]), inp["nd"]))
+        yield "lammps-type-is-read-by-read_lammps_wrapper(filename,ndim)", (good if good is not True and good is not False and not isinstance(good, (tuple, list, str)) else bool(good))
 
     def replay(self, case, clause, model, seed):
         import importlib
@@ -604,8 +608,15 @@ class Dispatch(Unit):
             r = D.DumpReader(path, ndim=3, filetype=RUm.DumpFileType.LAMMPS)
             r.read_onefile()
             s = r.snapshots
-            bad = s.nsnapshots != 1 or s.snapshots[0].timestep != 7 or list(s.snapshots[0].particle_type) != [2, 1]
-            return {"ran": True, "failed": bool(bad), "detail": "DumpReader(LAMMPS).read_onefile() on a one-frame file"}
+            bad = s.nsnapshots != 1 or s.snapshots[0].timestep != 7 or list(s.snapshots[0].particle_type) != [2, 1] or s.snapshots[0].positions.shape != (2, 3)
+            path2 = os.path.join(tmp, "b.dump")
+            with open(path2, "w") as f:
+                f.write("ITEM: TIMESTEP\n9\nITEM: NUMBER OF ATOMS\n2\nITEM: BOX BOUNDS pp pp pp\n0 4\n0 4\n-0.5 0.5\nITEM: ATOMS id type x y z\n2 1 1 1 0\n1 2 3 3 0\n")
+            r2 = D.DumpReader(path2, ndim=2, filetype=RUm.DumpFileType.LAMMPS)
+            r2.read_onefile()
+            s2 = r2.snapshots
+            bad = bad or s2.nsnapshots != 1 or s2.snapshots[0].timestep != 9 or s2.snapshots[0].positions.shape != (2, 2) or s2.snapshots[0].hmatrix.shape != (2, 2)
+            return {"ran": True, "failed": bool(bad), "detail": "DumpReader(LAMMPS).read_onefile() on one-frame files, ndim = 3 and ndim = 2"}
         except Exception as e:
             return {"ran": True, "failed": True, "detail": f"raises {type(e).__name__}: {e}"}
         finally:
